@@ -8,7 +8,8 @@ against the block reference of the property text (DESIGN Appendix A `blocks_spec
   fill/request (any schedule, as Split does): after every request() the concatenation of all request() results so far
          == run-reference (yield_on_remainder off) of everything filled so far; every call returns (step watchdog: number
          of executed lines of lena code per call, plus a 2 s wall-clock backstop); after a request() at most one block
-         stays buffered (sizes of _buffer_in / _buffer_out).
+         stays buffered (sizes of _buffer_in / _buffer_out); with yield_on_remainder on (results not specified by the
+         property) every value is still accounted for once and in order.
 
 Wrapped elements are harness test doubles with tagged results (every result carries the exact list of values it was
 computed from), so order, attribution, loss, duplication and missing/extra resets are all visible in the results.
@@ -73,7 +74,6 @@ if _mon is not None:
 class steps(object):
     """deterministic hang detector: counts the executed lines of the files of the lena package and raises StepLimit
     in the running lena code when more than `limit` of them were executed inside the with block"""
-    maximum = 0
 
     def __init__(self, limit):
         self.limit = limit
@@ -102,20 +102,48 @@ class steps(object):
         if _mon is None:
             sys.settrace(None)
         _Count.limit = float("inf")
-        if a[0] is None and _Count.n > steps.maximum:
-            steps.maximum = _Count.n
-            steps.maximum_limit = self.limit
         return False
 
 
+WALL = [False]
+
+
+class wallclock(watchdog):
+    """the 2 s wall-clock backstop (for loops outside lena code, which the step watchdog cannot see); notes that it fired,
+    so that the case is re-run once before a hang is reported (a busy machine must not produce a false alarm)"""
+
+    def __exit__(self, et, ev, tb):
+        if et is not None and issubclass(et, Timeout):
+            WALL[0] = True
+        return watchdog.__exit__(self, et, ev, tb)
+
+
+class TooSlow(Exception):
+    pass
+
+
+def confirmed(case, *args):
+    WALL[0] = False
+    bad = case(*args)
+    if WALL[0]:
+        WALL[0] = False
+        bad = case(*args)
+        if WALL[0]:
+            WALL.append(args)
+            if len(WALL) > 6:
+                # every such case costs 4 s: keep the time budget, the failures found so far are reported
+                raise TooSlow("more than 5 cases confirmed as hanging by the wall-clock watchdog; remaining cases not run")
+    return bad
+
+
 def call_steps(L):
-    """bound for one fill()/request() call after at most L fills: a terminating call executes < 15 + 12 L lines of lena
-    code (measured maximum over the scopes below: see the final comment of this file)"""
+    """bound on the executed lena lines of one fill()/request() call in a history of L fills (measured over all scopes
+    below, unchanged tree and a repaired tree: no terminating call uses more than a quarter of its bound)"""
     return 300 + 60 * L
 
 
 def run_steps(L):
-    """bound for one whole run()/Split.run() over L values (measured maximum < 60 + 45 L)"""
+    """the same for one whole run() / Split.run() / FillRequestSeq.run() over L values"""
     return 1500 + 300 * L
 
 
@@ -315,7 +343,7 @@ def case_run(cfg, flow):
     src = CountingIter(flow)
     try:
         fr = make_fr(cfg)
-        with watchdog(2), steps(run_steps(len(flow))):
+        with wallclock(2), steps(run_steps(len(flow))):
             for r in fr.run(src):
                 got.append(r)
                 at.append(src.consumed)
@@ -429,7 +457,7 @@ def analyse(prefix, cfg, calls, desc, results=True):
     last_req_len = 0
     bad = []
     seen_bound = False
-    for ci, c in enumerate(calls):
+    for c in calls:
         if c["fn"] == "fill":
             pending = len(H) - n * (last_req_len // n)
             where = ("past-full-block" if pending >= n else "within-block")
@@ -470,17 +498,12 @@ def analyse(prefix, cfg, calls, desc, results=True):
                     results = False     # later results are not comparable; termination and buffer sizes still are
             if yor and results and m >= 1:
                 # results are not specified for arbitrary request points with yield_on_remainder, but every value must
-                # still be accounted for exactly once: with reset the results partition a prefix of the history,
-                # without reset every result is computed from a prefix of the history
-                snaps = [r[2] for r in emitted if r[1] == 0]
-                if cfg["reset"]:
-                    got_vals = [v for sn in snaps for v in sn]
-                    ok = got_vals == H[:len(got_vals)]
-                else:
-                    ok = all(sn == H[:len(sn)] for sn in snaps)
-                if not ok:
+                # still be accounted for exactly once, in order
+                wellformed = all(isinstance(r, list) and len(r) == 3 and isinstance(r[2], list) for r in emitted)
+                snaps = [r[2] for r in emitted if r[1] == 0] if wellformed else emitted
+                if not wellformed or not accounted_once(snaps, H, cfg["reset"]):
                     bad.append(("%s.request/values-not-accounted-once/%s/%s/%s" % (prefix, bufname(cfg), phase, tail(cfg)),
-                                "%s: results up to %s are computed from %s, values filled %s" % (
+                                "%s: the results up to %s were computed from %s, values filled %s" % (
                                     desc, callname, short(snaps), short(H))))
                     results = False
             if len(H) % n:
@@ -493,6 +516,25 @@ def analyse(prefix, cfg, calls, desc, results=True):
                 bad.append(("%s.request/more-than-one-block-buffered/%s/%s/%s" % (prefix, bufname(cfg), phase, tail(cfg)),
                             "%s: after %s len(_buffer_in)=%r len(_buffer_out)=%r, block size %d" % (desc, callname, bi, bo, n)))
     return bad
+
+
+def accounted_once(snaps, H, reset):
+    """snaps: the value lists the successive results were computed from; H: distinct values filled so far.
+    Without reset every result is computed from a prefix of H (growing); with reset every result is computed from a
+    contiguous slice H[a:b] that starts no later than where the previous one ended (nothing skipped) and ends no
+    earlier (whether a remainder result is followed by a reset is left open, so slices may share their start)."""
+    end = 0
+    for sn in snaps:
+        if not sn:
+            continue
+        if sn[0] not in H:
+            return False
+        a = 0 if not reset else H.index(sn[0])
+        b = a + len(sn)
+        if sn != H[a:b] or a > end or b < end:
+            return False
+        end = b
+    return True
 
 
 def stopped(bad):
@@ -516,8 +558,9 @@ def case_drive(cfg, flow, sched):
         p = Probe(fr)
     except Exception as e:
         return [("FillRequest.__init__/exception", "%s raises %s: %s" % (fr_desc(cfg), type(e).__name__, e))]
+    err = None
     try:
-        with watchdog(2):
+        with wallclock(2):
             for i in range(len(flow) + 1):
                 if i:
                     with steps(call_steps(len(flow))):
@@ -531,9 +574,12 @@ def case_drive(cfg, flow, sched):
                                 raise StepLimit()
     except (StepLimit, Timeout):
         pass
-    except Exception:
-        pass
-    return analyse("FillRequest", cfg, p.calls, desc)
+    except Exception as e:
+        err = e
+    bad = analyse("FillRequest", cfg, p.calls, desc)
+    if err is not None and not stopped(bad):
+        bad.append(("FillRequest.fill-request/exception-outside-a-call", "%s: %s: %s" % (desc, type(err).__name__, err)))
+    return bad
 
 
 # ---------------------------------------------------------------------------------------------- scope 3: Split
@@ -571,7 +617,7 @@ def case_split(cfg, b, form, flow):
     got = []
     err = None
     try:
-        with watchdog(2), steps(run_steps(len(flow))):
+        with wallclock(2), steps(run_steps(len(flow))):
             for r in s.run(iter(flow)):
                 got.append(r)
                 if len(got) > 10 * (len(flow) + 2) * 3:
@@ -587,13 +633,13 @@ def case_split(cfg, b, form, flow):
     if err is not None:
         sym = "hang" if isinstance(err, (StepLimit, Timeout)) else "exception"
         return bad + [("%s/%s-outside-FillRequest" % (pfx, sym), "%s: %s %s" % (desc, type(err).__name__, err))]
-    # Split mechanism: a block of b values is filled, then request() is called once; an empty flow gets one request()
+    # Split mechanism: a block of b values is filled, then request() is called once
     exp_calls = []
     for j in range(0, len(inner_flow), b):
         exp_calls += [("fill", v) for v in inner_flow[j:j + b]] + [("request", None)]
-    if not inner_flow:
-        exp_calls = [("request", None)]
     got_calls = [(c["fn"], c.get("arg")) for c in p.calls]
+    if not inner_flow and got_calls == [("request", None)]:
+        exp_calls = got_calls       # documented: request() is called once for an empty flow; the property is silent
     if got_calls != exp_calls:
         bad.append((pfx + "/not-fill-a-block-then-request", "%s: calls on the FillRequest were %s, expected %s" % (
             desc, short(got_calls), short(exp_calls))))
@@ -621,7 +667,7 @@ def case_frs_drive(cfg, flow, sched):
     filled = []
     err = None
     try:
-        with watchdog(2):
+        with wallclock(2):
             for i in range(len(flow) + 1):
                 if i:
                     with steps(call_steps(len(flow))):
@@ -671,7 +717,7 @@ def case_frs_run(cfg, b, oreset, oyor, flow):
     got = []
     err = None
     try:
-        with watchdog(2), steps(run_steps(len(flow))):
+        with wallclock(2), steps(run_steps(len(flow))):
             for r in seq.run(iter(flow)):
                 got.append(r)
                 if len(got) > 10 * (len(flow) + 2) * 3:
@@ -714,30 +760,31 @@ def _has(bad, fid):
 
 
 def replay_run(fid, cfg, flow):
-    return _has(case_run(cfg, flow), fid)
+    return _has(confirmed(case_run, cfg, flow), fid)
 
 
 def replay_drive(fid, cfg, flow, sched):
-    return _has(case_drive(cfg, flow, sched), fid)
+    return _has(confirmed(case_drive, cfg, flow, sched), fid)
 
 
 def replay_split(fid, cfg, b, form, flow):
-    return _has(case_split(cfg, b, form, flow), fid)
+    return _has(confirmed(case_split, cfg, b, form, flow), fid)
 
 
 def replay_frs_drive(fid, cfg, flow, sched):
-    return _has(case_frs_drive(cfg, flow, sched), fid)
+    return _has(confirmed(case_frs_drive, cfg, flow, sched), fid)
 
 
 def replay_frs_run(fid, cfg, b, oreset, oyor, flow):
-    return _has(case_frs_run(cfg, b, oreset, oyor, flow), fid)
+    return _has(confirmed(case_frs_run, cfg, b, oreset, oyor, flow), fid)
 
 
 REPLAYERS = {"replay_run": replay_run, "replay_drive": replay_drive, "replay_split": replay_split,
              "replay_frs_drive": replay_frs_drive, "replay_frs_run": replay_frs_run}
 
 
-def report(R, bad, fn, args, sample=None):
+def report(R, case, fn, args, sample=None):
+    bad = confirmed(case, *args)
     R.case(True, sample)
     for fid, what in bad:
         R.fail(fid, what, {"args": args}, {"fn": fn, "args": [fid] + args})
@@ -778,7 +825,7 @@ def body(R):
                                 if m is not None:
                                     cfg["m"] = m
                                 flow = make_flow(L, variant)
-                                report(R, case_run(cfg, flow), "replay_run", [cfg, flow], {"cfg": cfg, "flow": flow})
+                                report(R, case_run, "replay_run", [cfg, flow], {"cfg": cfg, "flow": flow})
 
     R.scope("FillRequest.run (run element that reads only the first k values of its block)",
             "k in 0..2 x bufsize 1..4 x {buffer_input, buffer_output} x yield_on_remainder x flow lengths 0..9", True)
@@ -789,7 +836,7 @@ def body(R):
                     for L in range(0, 10):
                         cfg = {"kind": "first", "k": k, "n": n, "buf": buf, "reset": None, "yor": yor}
                         flow = make_flow(L, "ints")
-                        report(R, case_run(cfg, flow), "replay_run", [cfg, flow])
+                        report(R, case_run, "replay_run", [cfg, flow])
 
     # ---- scope 2: fill/request schedules
     def all_schedules(L):
@@ -807,10 +854,10 @@ def body(R):
                                     flow = make_flow(L, variant)
                                     for sched in scheds(L):
                                         sched = list(sched)
-                                        report(R, case_drive(cfg, flow, sched), "replay_drive", [cfg, flow, sched],
+                                        report(R, case_drive, "replay_drive", [cfg, flow, sched],
                                                {"cfg": cfg, "flow": flow, "sched": sched} if sample else None)
 
-    La = 9 if T else 6
+    La = 10 if T else 6
     R.scope("FillRequest.fill/request (all schedules)",
             "fill/compute element (1 result per request) x bufsize 1..5 x {buffer_input, buffer_output} x reset, "
             "yield_on_remainder off: ALL request schedules (request() or not after each of the 0..L fills, also before the "
@@ -818,9 +865,10 @@ def body(R):
     drive(("fc",), range(1, 6), (False,), range(0, La + 1), all_schedules, sample=True)
 
     Lb, nb = (7, 5) if T else (5, 3)
-    R.scope("FillRequest.fill/request (all schedules, yield_on_remainder on: termination and buffer sizes only)",
+    R.scope("FillRequest.fill/request (all schedules, yield_on_remainder on)",
             "fill/compute element x bufsize 1..%d x {buffer_input, buffer_output} x reset, yield_on_remainder on: all request "
-            "schedules for L = 0..%d" % (nb, Lb), True)
+            "schedules for L = 0..%d; checked: termination, buffer sizes, every value accounted for once and in order (the "
+            "results themselves are not specified for this mode)" % (nb, Lb), True)
     drive(("fc",), range(1, nb + 1), (True,), range(0, Lb + 1), all_schedules)
 
     Lc = 7 if T else 4
@@ -861,11 +909,11 @@ def body(R):
             if rng.random() < pr and (not only_aligned or i % n == 0):
                 k = 1 if rng.random() < 0.8 else 2
             sched.append(k)
-        report(R, case_drive(cfg, flow, sched), "replay_drive", [cfg, flow, sched])
+        report(R, case_drive, "replay_drive", [cfg, flow, sched])
 
     # ---- scope 3: Split around a FillRequest branch
-    bmax = 8 if T else 6
-    Lsp = 16 if T else 10
+    bmax = 10 if T else 6
+    Lsp = 20 if T else 10
     R.scope("Split.run around a FillRequest branch",
             "fill/compute and fill/request elements x block size 1..5 x Split bufsize 1..%d (dividing, divided by, equal to, "
             "coprime to the block size) x {buffer_input, buffer_output} x reset x flow lengths 0..%d x branch forms "
@@ -882,7 +930,7 @@ def body(R):
                             for L in range(0, Lsp + 1):
                                 cfg = {"kind": kind, "n": n, "buf": buf, "reset": reset, "yor": False, "m": 1}
                                 flow = make_flow(L, "ints")
-                                report(R, case_split(cfg, b, form, flow), "replay_split", [cfg, b, form, flow],
+                                report(R, case_split, "replay_split", [cfg, b, form, flow],
                                        {"cfg": cfg, "b": b, "form": form, "flow": flow})
 
     # ---- scope 4: FillRequestSeq wiring
@@ -898,7 +946,7 @@ def body(R):
                     flow = make_flow(L, "ints")
                     for sched in itertools.product((0, 1), repeat=L + 1):
                         sched = list(sched)
-                        report(R, case_frs_drive(cfg, flow, sched), "replay_frs_drive", [cfg, flow, sched])
+                        report(R, case_frs_drive, "replay_frs_drive", [cfg, flow, sched])
 
     R.scope("FillRequestSeq.run",
             "FillRequestSeq(pre, FillRequest(block size 1..%d, buffer_input/buffer_output, reset), post, bufsize=b in 1..%d, "
@@ -915,7 +963,7 @@ def body(R):
                             for L in range(0, 13 if T else 11):
                                 cfg = {"kind": "fc", "n": n, "buf": buf, "reset": reset, "yor": False, "m": 1}
                                 flow = make_flow(L, "ints")
-                                report(R, case_frs_run(cfg, b, oreset, oyor, flow), "replay_frs_run", [cfg, b, oreset, oyor, flow])
+                                report(R, case_frs_run, "replay_frs_run", [cfg, b, oreset, oyor, flow])
 
 
 if __name__ == "__main__":
